@@ -73,19 +73,26 @@ static CaseResult program_case(Tape &t, bool client)
 	gen_residue(t, o2, "t.example.com", client, desc); o2.tr = &t2; o2.variant = 1;
 	// server scenario, one case in three: besides the residue, the HISTORY is perturbed (see c05_case.h)
 	if (!client && t.chance(1, 3)) { o1.perturb = o2.perturb = true; o1.perturb_addr = o2.perturb_addr = sim::Addr::v4(203, 0, 113, 200, 7777); desc += " + perturbed history"; }
+	// client scenario, one case in four: handshake steps answered with a short reply right behind a complete reply that has to be
+	// ignored (wrong id) and whose TEXT differs between the two runs (see c06_case.h)
+	bool hs = client && t.chance(1, 4);
+	if (hs) { o1.perturb = o2.perturb = true; o1.perturb_addr = o2.perturb_addr = sim::Addr::v4(203, 0, 113, 200, 53); }
+	if (hs) desc += " + short replies behind ignored replies of differing content";
 	Tape a = t, b = t;
-	CaseResult ra = client ? c06::run_case(a, o1) : c05::run_case(a, o1);
-	CaseResult rb = client ? c06::run_case(b, o2) : c05::run_case(b, o2);
+	CaseResult ra = client ? (hs ? c06::handshake_short_reply_case(a, o1) : c06::run_case(a, o1)) : c05::run_case(a, o1);
+	CaseResult rb = client ? (hs ? c06::handshake_short_reply_case(b, o2) : c06::run_case(b, o2)) : c05::run_case(b, o2);
 	t.used.insert(t.used.end(), a.used.begin() + std::min(a.used.size(), t.used.size()), a.used.end());
 	t.widths.insert(t.widths.end(), a.widths.begin() + std::min(a.widths.size(), t.widths.size()), a.widths.end());
 	r.render = std::string(client ? "client: " : "server: ") + "residue B = " + desc + " | " + ra.render.substr(0, 1100);
 	std::string d = first_difference(t1, t2);
 	if (getenv("VERIF_TRACE")) for (size_t i = 0; i < std::max(t1.ev.size(), t2.ev.size()); i++) fprintf(stderr, "#%zu %s\n   A %.6f %.150s\n   B %.6f %.150s\n", i, (i < t1.ev.size() && i < t2.ev.size() && t1.ev[i] == t2.ev[i]) ? "same" : "DIFF", i < t1.at.size() ? t1.at[i] / 1e6 : -1.0, i < t1.ev.size() ? t1.ev[i].c_str() : "-", i < t2.at.size() ? t2.at[i] / 1e6 : -1.0, i < t2.ev.size() ? t2.ev[i].c_str() : "-");
-	if (!d.empty()) r.fail(client ? "C12:client-depends-on-residue" : "C12:server-depends-on-residue", std::string("the ") + (client ? "client" : "server") + " behaved differently for identical datagrams when only the bytes beyond the datagram in its receive buffer" + std::string(o1.perturb ? " and the text of earlier, harmless echo requests from an uninvolved address" : "") + " differed: " + d + "\n" + r.render);
+	if (!d.empty() && hs) r.fail("C12:client-depends-on-ignored-reply", "the client behaved differently for identical matching replies when only the content of earlier replies it has to ignore (wrong DNS id, same length) differed: " + d + "\n" + r.render);
+	else if (!d.empty()) r.fail(client ? "C12:client-depends-on-residue" : "C12:server-depends-on-residue", std::string("the ") + (client ? "client" : "server") + " behaved differently for identical datagrams when only the bytes beyond the datagram in its receive buffer" + std::string(o1.perturb ? " and the text of earlier, harmless echo requests from an uninvolved address" : "") + " differed: " + d + "\n" + r.render);
 	bool shape = false; for (auto &c : ra.classes) if (c == "residue-sensitive-shape") shape = true;
 	r.nontrivial = shape;
 	r.cls(client ? "layer2:client" : "layer2:server");
 	if (o1.perturb) r.cls("layer2:history-perturbed");
+	if (hs) r.cls("layer2:client-short-replies-behind-ignored-ones");
 	if (shape) r.cls("residue-sensitive-shape");
 	return r;
 }
